@@ -10,6 +10,7 @@ CONSTANTS
   BaseAtIH = TRUE
   Alias = FALSE
   MarksDurable = TRUE
+  SeedDataFromHeader = FALSE
   Rec = FALSE
 INVARIANTS WmSound InclSound InclBounds FinalizeInOrder FinalizeBeforeReport RefuseOnlyIfPending
 PROPERTIES WmMonotone InclMonotone
